@@ -365,6 +365,7 @@ func finish(propID, tier string, cfg *CheckConfig, ld *Loaded, results []*Harnes
 	// ---- evidence
 	cov := map[string]interface{}{}
 	states, transitions, obligations, discharged, queries := 0, 0, 0, 0, 0
+	symDecisions := 0
 	solverT := 0.0
 	funcs := map[string]bool{}
 	stubs := map[string]int{}
@@ -375,7 +376,8 @@ func finish(propID, tier string, cfg *CheckConfig, ld *Loaded, results []*Harnes
 	vacuous := []string{}
 	for _, r := range results {
 		states += r.Paths
-		transitions += r.Decisions
+		transitions += r.AllDecisions
+		symDecisions += r.Decisions
 		obl := r.ChecksProved + r.ChecksConst + len(r.Violations)
 		for _, n := range r.Inconclusive {
 			obl += n
@@ -435,6 +437,7 @@ func finish(propID, tier string, cfg *CheckConfig, ld *Loaded, results []*Harnes
 	}
 	cov["states"] = states
 	cov["transitions"] = transitions
+	cov["symbolic_branch_decisions"] = symDecisions
 	cov["traces_validated_against_impl"] = validated
 	cov["samples"] = samples
 	cov["obligations"] = obligations
@@ -454,7 +457,7 @@ func finish(propID, tier string, cfg *CheckConfig, ld *Loaded, results []*Harnes
 	cov["known_findings_hit"] = knownHits
 	cov["notes"] = notes
 	cov["exhaustive"] = len(incon) == 0
-	cov["explanation"] = "bounded symbolic execution of the real functions (go/ssa of /repo's working tree) with an SMT solver deciding every branch feasibility and every assertion; states = feasible paths completed, transitions = symbolic branch decisions; unsat on every path = holds for all inputs within bounds"
+	cov["explanation"] = "bounded symbolic execution of the real functions (go/ssa of /repo's working tree) with an SMT solver deciding every branch feasibility and every assertion; states = feasible paths completed, transitions = decisions taken along them (solver-decided symbolic branches, listed separately as symbolic_branch_decisions, plus enumerated harness choices); unsat on every path = holds for all inputs within bounds"
 	asm := append([]string{}, cfg.Assumptions...)
 	for k := range stubs {
 		if !strings.HasPrefix(k, symxPath) {
